@@ -9,3 +9,11 @@ open MdVerif.RenderX
 #print axioms C16_admonition_no_title
 #print axioms C16_deflist_renders
 #print axioms C16_deflist_one
+#print axioms C16_abbr_renders
+#print axioms C16_footnote_renders
+#print axioms C16_footnote_one
+#print axioms C16_nl2br_composes
+#print axioms C16_admonition_composes
+#print axioms C16_deflist_composes
+#print axioms C16_abbr_composes
+#print axioms C16_footnote_composes
